@@ -163,6 +163,66 @@ def witHandlerFailed : Conn :=
 example : ∃ c', nextReader witHandlerFailed = (.err (.handler 42), c') ∧ c'.r.readErr = some (.handler 42) :=
   handler_error_sticky witHandlerFailed 42 rfl (by decide)
 
+/-- a SERVER connection (default handlers) in the middle of a fragmented message; pending: a masked
+    ping "ping!" with the non-zero key 37 fa 21 3d (split over buffer and two transport chunks), then the
+    header of a masked close frame -/
+def witSrvPing : Conn :=
+  { w := newW true 4096 false false,
+    r := { isServer := true, nego := false, final := false, length := 3, msgReader := some 0, nextId := 1,
+           hlog := [.pong [9]],
+           buf := { size := 4096, buf := (PFrame.enc true ⟨9, true, ⟨0x37, 0xfa, 0x21, 0x3d⟩, [0x70, 0x69, 0x6e, 0x67, 0x21]⟩).take 4,
+                    t := { chunks := [((PFrame.enc true ⟨9, true, ⟨0x37, 0xfa, 0x21, 0x3d⟩, [0x70, 0x69, 0x6e, 0x67, 0x21]⟩).drop 4).take 4,
+                                      (PFrame.enc true ⟨9, true, ⟨0x37, 0xfa, 0x21, 0x3d⟩, [0x70, 0x69, 0x6e, 0x67, 0x21]⟩).drop 8 ++ [0x88, 0x82]] },
+                    total := 13 } } }
+
+def witSrvPing_atBoundary : AtBoundary witSrvPing :=
+  ⟨rfl, rfl, ⟨by decide, by decide, by decide, (by intro e h; cases h)⟩, by decide⟩
+
+/-- the bytes really are masked: header 89 85, key, payload XOR key -/
+example : witSrvPing.r.buf.pending =
+    [0x89, 0x85, 0x37, 0xfa, 0x21, 0x3d, 0x70 ^^^ 0x37, 0x69 ^^^ 0xfa, 0x6e ^^^ 0x21, 0x67 ^^^ 0x3d, 0x21 ^^^ 0x37, 0x88, 0x82] := by
+  decide
+
+/-- non-vacuity of `default_ping_pong_any_role`: all hypotheses hold for the server reader `witSrvPing`
+    and a masked ping with a non-zero key; the (unmasked, server-side) pong carries the unmasked payload -/
+example : ∃ c', advanceFrame witSrvPing = (.ok 9, c') ∧
+      c'.r.hlog = witSrvPing.r.hlog ++ [.ping [0x70, 0x69, 0x6e, 0x67, 0x21]] ∧ c'.r.buf.pending = [0x88, 0x82] ∧
+      c'.w.wire = witSrvPing.w.wire ++ controlFrame witSrvPing.w.isServer 10 [0x70, 0x69, 0x6e, 0x67, 0x21] (ctlKey witSrvPing.w).1 ∧
+      c'.r.readErr = none ∧ c'.r.final = witSrvPing.r.final :=
+  default_ping_pong_any_role witSrvPing witSrvPing_atBoundary ⟨rfl, rfl⟩ rfl ⟨0x37, 0xfa, 0x21, 0x3d⟩
+    [0x70, 0x69, 0x6e, 0x67, 0x21] [0x88, 0x82] (by decide) (by decide)
+
+/-- evaluated: the server's pong is unmasked and carries "ping!" -/
+example : (advanceFrame witSrvPing).2.w.wire = [0x8A, 0x05, 0x70, 0x69, 0x6e, 0x67, 0x21] := by decide
+
+/-- a SERVER connection (default handlers), reader idle; pending: a masked close frame 1001 "bye" with the
+    non-zero key a0 b0 c0 d0 (split over buffer and transport), then one stray byte -/
+def witSrvClose : Conn :=
+  { w := newW true 4096 false false,
+    r := { isServer := true, nego := false, hlog := [.ping [0x70]],
+           buf := { size := 4096, buf := (PFrame.enc true ⟨8, true, ⟨0xa0, 0xb0, 0xc0, 0xd0⟩, beBytes 2 1001 ++ [0x62, 0x79, 0x65]⟩).take 3,
+                    t := { chunks := [(PFrame.enc true ⟨8, true, ⟨0xa0, 0xb0, 0xc0, 0xd0⟩, beBytes 2 1001 ++ [0x62, 0x79, 0x65]⟩).drop 3 ++ [0xAA]] },
+                    total := 12 } } }
+
+def witSrvClose_atBoundary : AtBoundary witSrvClose :=
+  ⟨rfl, rfl, ⟨by decide, by decide, by decide, (by intro e h; cases h)⟩, by decide⟩
+
+example : witSrvClose.r.buf.pending =
+    [0x88, 0x85, 0xa0, 0xb0, 0xc0, 0xd0, 0x03 ^^^ 0xa0, 0xE9 ^^^ 0xb0, 0x62 ^^^ 0xc0, 0x79 ^^^ 0xd0, 0x65 ^^^ 0xa0, 0xAA] := by
+  decide
+
+/-- non-vacuity of `default_close_echo_any_role`: all hypotheses hold for the server reader `witSrvClose`,
+    code 1001, reason "bye", masked with a non-zero key -/
+example : ∃ c', advanceFrame witSrvClose = (.error (.close 1001 [0x62, 0x79, 0x65]), c') ∧
+      c'.r.hlog = witSrvClose.r.hlog ++ [.close 1001 [0x62, 0x79, 0x65]] ∧
+      c'.w.wire = witSrvClose.w.wire ++ controlFrame witSrvClose.w.isServer 8 (closePayload 1001 []) (ctlKey witSrvClose.w).1 ∧
+      c'.w.writeErr = some .closeSent :=
+  default_close_echo_any_role witSrvClose witSrvClose_atBoundary ⟨rfl, rfl⟩ rfl ⟨0xa0, 0xb0, 0xc0, 0xd0⟩ 1001
+    [0x62, 0x79, 0x65] [0xAA] (by decide) (by decide) (by decide) (by decide) (by decide)
+
+/-- evaluated: the server's close echo is unmasked and carries the code 1001 -/
+example : (advanceFrame witSrvClose).2.w.wire = [0x88, 0x02, 0x03, 0xE9] := by decide
+
 end NonVacuity
 
 end WS.Props.C08
